@@ -81,7 +81,7 @@ def w_interstitial(arg):
     import warnings; warnings.filterwarnings('ignore')
     from onsager import GFcalc
     from vf.rtc import catalogue
-    cid, f = catalogue.builders(tier, seed)[idx]
+    cid, f = (catalogue.builders(tier, seed) + catalogue.interstitial_extras(tier, seed))[idx]
     e = f(); acc = Acc(cid)
     d = build(e); c = d.crys; dim = c.dim
     rng = np.random.default_rng(seed * 67 + idx)
@@ -209,10 +209,22 @@ def w_interstitial(arg):
             distinct = []
             for x in sorted(nz):
                 if not distinct or abs(x - distinct[-1]) > 1e-7 * max(abs(x), avg): distinct.append(x)
+            # one entry per distinct relaxation rate (modes that carry no dipole fluctuation may be omitted or listed with a zero tensor,
+            # but no rate may be listed twice and no mode that carries weight may be missing -- the sum rule below)
+            lams = sorted(lam for lam, L in LL)
+            acc.check(all(b - a > 1e-7 * max(abs(b), avg) for a, b in zip(lams, lams[1:])), 'each-relaxation-rate-listed-once', '%s: %r' % (tag, np.round(lams, 8).tolist()), sig=(t, 'once'))
             tot = sum(L for lam, L in LL) if LL else np.zeros((dim,) * 4)
             avgP = np.tensordot(rho, sd, 1)
             want = np.einsum('i,iab,icd->abcd', rho, sd, sd) - np.einsum('ab,cd->abcd', avgP, avgP)
             acc.check(np.abs(tot - want).max() <= 1e-9 * max(np.abs(want).max(), 1e-12) + 1e-13, 'loss-tensors-sum-to-the-equilibrium-dipole-fluctuation',
                       '%s: %.2e' % (tag, np.abs(tot - want).max() / max(np.abs(want).max(), 1e-300)), sig=(t, 'sum'))
+    if which == 'C02':
+        # the result is a function of (crystal, network, data): calculators built later on the SAME Crystal object (whatever the
+        # crystal has cached or handed out in between) must give the same exact diffusivity
+        pre, be, preT, beT = thermo(d, rng)
+        for k in (2, 3):
+            dk = build(e)
+            Dk = dk.diffusivity(pre, be, preT, beT); Ds = D_spec(dk, pre, be, preT, beT); sc = np.abs(Ds).max()
+            acc.check(np.abs(Dk - Ds).max() <= 1e-9 * sc, 'calculator-number-%d-on-the-same-crystal-object-is-exact' % k, '|D-Dspec|/|D| = %.2e (NV=%d)' % (np.abs(Dk - Ds).max() / sc, dk.NV), sig=('again', k))
     acc.sample = {'crystal': cid, 'sites': d.N, 'NV': d.NV, 'bias_solver': 'solve' if d.omega_invertible else 'pinv', 'datasets': nsets, 'property': which}
     return acc.result()
